@@ -162,6 +162,18 @@ type serverStream struct {
 }
 
 func (s *serverStream) SetHeader(md metadata.MD) error {
+	if md.Len() == 0 {
+		return nil
+	}
+	s.headerM.Lock()
+	defer s.headerM.Unlock()
+
+	select {
+	case <-s.headerC:
+		// the headers have gone out (or the call is over): nothing can be added to what the client has been given
+		return errors.New("headers already sent")
+	default:
+	}
 	s.joinHeader(md)
 	return nil
 }
